@@ -242,6 +242,29 @@ PathT: TypeAlias = list[Union[int, str, "PathToken"]]
 
 RE_PROPERTY = re.compile(r"[\u0080-\uFFFFa-zA-Z_][\u0080-\uFFFFa-zA-Z0-9_-]*")
 
+# Words that are only variable names when written as a quoted, bracketed root.
+_RESERVED_WORDS = frozenset(
+    [
+        "true",
+        "false",
+        "and",
+        "or",
+        "in",
+        "not",
+        "contains",
+        "nil",
+        "null",
+        "if",
+        "else",
+        "with",
+        "required",
+        "as",
+        "for",
+        "empty",
+        "blank",
+    ]
+)
+
 
 @dataclass(kw_only=True, slots=True)
 class PathToken(TokenT):
@@ -254,7 +277,16 @@ class PathToken(TokenT):
 
     def __str__(self) -> str:
         it = iter(self.path)
-        buf = [str(next(it))]
+        root = next(it)
+        if isinstance(root, PathToken):
+            # The name of the root variable is itself the value of a variable.
+            buf = [f"[{root}]"]
+        elif isinstance(root, str) and (
+            not RE_PROPERTY.fullmatch(root) or root in _RESERVED_WORDS
+        ):
+            buf = [f"[{_quote_segment(root)}]"]
+        else:
+            buf = [str(root)]
         for segment in it:
             if isinstance(segment, PathToken):
                 buf.append(f"[{segment}]")
